@@ -826,6 +826,13 @@ Proof.
   rewrite E2, E3 in *. lia.
 Qed.
 
+Lemma has_len_app p : forall rest, has_len (p ++ rest) (Z.of_nat (length p)) = true.
+Proof.
+  induction p as [|x p IH]; intros rest; [destruct rest; reflexivity|].
+  cbn [app length has_len]. destruct (Z.of_nat (S (length p)) <=? 0) eqn:E; [reflexivity|].
+  replace (Z.of_nat (S (length p)) - 1) with (Z.of_nat (length p)) by lia. apply IH.
+Qed.
+
 (* FRAMES WRITTEN ATOMICALLY ARE READ BACK INTACT: a stream that is a concatenation of whole frames (any number of
    writers, any lock order) parses to exactly the messages written, in stream order *)
 Theorem parse_frames_of_frames ps : forall fuel,
@@ -836,7 +843,5 @@ Proof.
   apply Forall_cons in Hall as [Hp Hall]. destruct fuel as [|f]; [cbn in Hf; lia|].
   cbn [map concat]. unfold frame at 1. unfold le32. cbn [app parse_frames].
   rewrite le32_roundtrip by lia.
-  assert (Hle : (Z.of_nat (length p) <=? Z.of_nat (length (p ++ concat (map frame ps)))) = true).
-  { apply Z.leb_le. rewrite app_length. lia. }
-  rewrite Hle. rewrite Nat2Z.id. rewrite drop_app, take_app. rewrite IH; [reflexivity|cbn in Hf; lia|exact Hall].
+  rewrite has_len_app. rewrite Nat2Z.id. rewrite drop_app, take_app. rewrite IH; [reflexivity|cbn in Hf; lia|exact Hall].
 Qed.
